@@ -209,7 +209,7 @@ func (m *Machine) zero(t types.Type) Value {
 			return Str{}
 		case u.Kind() == types.UnsafePointer:
 			return Ptr{}
-		case u.Kind() == types.UntypedNil:
+		case u.Kind() == types.UntypedNil, u.Kind() == types.Invalid:
 			return nil
 		case u.Info()&types.IsFloat != 0:
 			return Opaque{"float", float64(0)}
@@ -430,8 +430,7 @@ func (m *Machine) valEq(a, b Value) *Term {
 	case *Closure:
 		return s.Bool(x == b.(*Closure))
 	case Slice:
-		y := b.(Slice)
-		return s.Bool(x.Base.Obj == nil && y.Base.Obj == nil)
+		m.goPanicStr("runtime error: comparing uncomparable type (slice)")
 	case Opaque:
 		y, ok := b.(Opaque)
 		return s.Bool(ok && x.Kind == y.Kind && x.V == y.V)
